@@ -246,7 +246,15 @@ fn encode(fmt: &str, o: &Opts, data: &[u8], chunk: Option<u64>) -> std::result::
                 let mut opts = LZMA2Options { lzma_options: o.to(), chunk_size: None };
                 opts.set_chunk_size(chunk.and_then(NonZeroU64::new));
                 let mut w = LZMA2Writer::new(Vec::new(), opts);
-                wr(&mut |p| w.write_all(p).map_err(|e| kind_of(&e).to_string()))?;
+                if FLUSH_AFTER_FIRST.load(std::sync::atomic::Ordering::Relaxed) {
+                    // (stratum 8) write k; flush; write rest
+                    let first = FIRST_WRITE.load(std::sync::atomic::Ordering::Relaxed).min(data.len());
+                    w.write_all(&data[..first]).map_err(|e| kind_of(&e).to_string())?;
+                    w.flush().map_err(|e| kind_of(&e).to_string())?;
+                    w.write_all(&data[first..]).map_err(|e| kind_of(&e).to_string())?;
+                } else {
+                    wr(&mut |p| w.write_all(p).map_err(|e| kind_of(&e).to_string()))?;
+                }
                 w.finish().map_err(|e| kind_of(&e).to_string())
             }
             "xz" => {
@@ -273,6 +281,7 @@ fn encode(fmt: &str, o: &Opts, data: &[u8], chunk: Option<u64>) -> std::result::
 }
 
 static FIRST_WRITE: std::sync::atomic::AtomicUsize = std::sync::atomic::AtomicUsize::new(0);
+static FLUSH_AFTER_FIRST: std::sync::atomic::AtomicBool = std::sync::atomic::AtomicBool::new(false);
 
 fn decode(fmt: &str, o: &Opts, comp: &[u8], cap: usize) -> String {
     show(catch_unwind(AssertUnwindSafe(|| match fmt {
@@ -579,6 +588,28 @@ fn main() {
         data.truncate(total);
         FIRST_WRITE.store(r.range(1, 70_000) as usize, std::sync::atomic::Ordering::Relaxed);
         emit(&mut r, fmt, &o, &data, None, "farrep");
+        FIRST_WRITE.store(0, std::sync::atomic::Ordering::Relaxed);
+    }
+    // (8) LZMA2 "write k; flush; write rest" with k within keep_size_after of the end of the encoder's window buffer,
+    //     BT4 with nice_len 273: flush leaves 272 bytes pending in the match finder, the next fill moves the window and
+    //     re-runs the match finder on them; it looks dict_size bytes back from the first pending byte (before the
+    //     repair of move_window: before the start of the buffer - a panic in the checked builds, an out-of-bounds
+    //     read in the optimization build)
+    for v in 0..(if thorough { 24 } else { 8 }) {
+        let mut r = Rng(rng.next());
+        let dict = if v % 4 == 3 { 131072usize } else { 65536 };
+        let o = Opts { dict: dict as u32, lc: 3, lp: 0, pb: 2, normal: v % 8 == 5, nice: 273, bt4: v % 6 != 4, depth: 0 };
+        let (eb, ea) = if o.normal { (4096usize, 4096usize) } else { (1, 272) };
+        let b = dict + eb.max(65536usize.saturating_sub(dict)) + ea + 273 + (dict / 2 + (256 << 10));
+        let back = if v == 0 { 225 } else { r.range(0, (ea + 272) as u64) as usize };
+        let k = b - back;
+        let total = k + r.range(300, 5000) as usize;
+        let mut x = r.next() | 1;
+        let data: Vec<u8> = (0..total).map(|_| { x ^= x << 13; x ^= x >> 7; x ^= x << 17; b"abcd"[(x >> 30) as usize & 3] }).collect();
+        FIRST_WRITE.store(k, std::sync::atomic::Ordering::Relaxed);
+        FLUSH_AFTER_FIRST.store(true, std::sync::atomic::Ordering::Relaxed);
+        emit(&mut r, "lzma2", &o, &data, None, "flushwin");
+        FLUSH_AFTER_FIRST.store(false, std::sync::atomic::Ordering::Relaxed);
         FIRST_WRITE.store(0, std::sync::atomic::Ordering::Relaxed);
     }
     // (7) only in builds with the verification hooks (the C15 builds): the match finders' aligned tables are
